@@ -56,7 +56,7 @@ Paths == {PathSeq[i] : i \in DOMAIN PathSeq}
 HolderOf(p) == PathInfo[p].holder
 PathsOf(h) == {p \in Paths : HolderOf(p) = h}
 Hows == {"overwrite", "delete", "freeze", "getter", "proto"}
-RichKinds == {"xarr", "xerr", "xprom", "ufn", "eval", "fctor", "gen", "cls", "tmpl", "args"}
+RichKinds == {"xarr", "xerr", "xprom", "ufn", "eval", "fctor", "gen", "cls", "tmpl", "args", "xthrow", "ufthrow", "xctor"}
 PassKinds == {"fn", "arr", "err", "prom", "sym"} \cup RichKinds
 
 (***************************************************************************************************************)
@@ -157,7 +157,9 @@ ObsHolder(view, h) == [frozen |-> ~view[h].ext, proto |-> view[h].proto = "orig"
 (* kinds of objects handed over.  fn: a function whose body is the probe of a path.  arr / err / prom / sym: an array, *)
 (* an error, a settled promise, a registered symbol with a small identity probe.  RichKinds: objects whose identity    *)
 (* probe exercises many cross-realm rules at once (GetFunctionRealm, ArraySpeciesCreate, indirect eval, template       *)
-(* objects, literals inside foreign function code ...) and therefore reaches many intrinsics of both realms: the        *)
+(* objects, literals inside foreign function code, the realm of the running frame after a foreign native, function   *)
+(* or constructor threw and the exception was caught in the calling frame ...) and therefore reaches many intrinsics  *)
+(* of both realms: the                                                                                                *)
 (* prediction is given only while both realms are pristine.                                                           *)
 ProtoHolderOfKind(k) ==
   CASE k \in {"arr", "xarr"} -> "Array.prototype" [] k \in {"err", "xerr"} -> "Error.prototype"
